@@ -120,6 +120,9 @@ func (x *Exec) runTop() {
 	}
 	for _, cl := range c.Clauses {
 		if cl.Loop >= len(x.P.Loops(fn)) && (cl.Kind == "invariant" || cl.Kind == "step" || cl.Kind == "decreases" || cl.Kind == "unroll") {
+			if c.Schema != "" {
+				continue // schema written for the looping variant; this instance delegates
+			}
 			x.unsupportedf("contract names loop %d but the function has %d loops", cl.Loop, len(x.P.Loops(fn)))
 		}
 	}
@@ -296,7 +299,8 @@ func (e *Env) evalRegion(ex *Expr) []Region {
 		return []Region{{IsElem: true, Arr: sv.Arr, Lo: Add(sv.Off, i), Hi: Add(sv.Off, Add(i, IntLit(1))), ElemKey: typeKey(sv.Elem), Desc: ex.String()}}
 	case "call":
 		if ex.Args[0].Op == "id" && ex.Args[0].Name == "gh" {
-			return nil // ghost fields are framed by their own maps
+			ref := flatten(e.eval(ex.Args[2]))
+			return []Region{{Ref: ref[len(ref)-1], RootKey: "ghost", PathPref: ex.Args[1].Name, Desc: ex.String()}}
 		}
 		if ex.Args[0].Op == "id" && ex.Args[0].Name == "whole" {
 			sv := e.eval(ex.Args[1]).(SliceV)
